@@ -250,12 +250,18 @@ structure Request where
   inst : Nat
   deriving Repr, Inhabited
 
-/-- `verify_default_rrset` for one RRSIG whose DNSKEY lookup succeeded:
-`Some(..)` → `Ok(RrsetProof)`, `None` → `Err(RrsigsUnverified)` with proof Bogus. -/
+/-- no DNSKEY lookup is made for this request (the RRSIG is skipped by `verify_default_rrset`) -/
+def noLookup (r : Request) : Bool :=
+  !(r.rrsig.input.signer.zoneOf r.keyName) ||
+    (r.keyType == 43 && !r.keyName.isRoot && Name.eq r.rrsig.input.signer r.keyName)
+
+/-- `verify_default_rrset` for one RRSIG: skipped without a lookup (Bogus), or the DNSKEY lookup
+succeeded: `Some(..)` → `Ok(RrsetProof)`, `None` → `Err(RrsigsUnverified)` with proof Bogus. -/
 def freshVerdict (sigValid : SigOracle) (r : Request) : Verdict :=
-  -- since /repo 207ce2a: an RRSIG whose signer is not the owner or an ancestor of it is skipped
-  -- without a DNSKEY lookup (→ `Err(RrsigsNotPresent)`, Bogus)
-  if !(r.rrsig.input.signer.zoneOf r.keyName) then { isOk := false, proof := .bogus, adjustedTtl := none }
+  -- since /repo 207ce2a: an RRSIG whose signer is not the owner or an ancestor of it is skipped without
+  -- a DNSKEY lookup (→ `Err(RrsigsNotPresent)`, Bogus); since 4f49cf9 also an RRSIG over a DS RRset
+  -- (type 43) that names the DS owner itself as signer
+  if noLookup r then { isOk := false, proof := .bogus, adjustedTtl := none }
   else
     match verifyRrsigWithKeys sigValid r.dnskeys r.rrsig r.keyName r.keyType r.records r.now with
     | some (p, ttl) => { isOk := true, proof := p, adjustedTtl := ttl }
